@@ -19,7 +19,7 @@ RULE = ("every generator over the documented kwargs grid (accessible_cells as co
 ASSUMPTIONS = ["grid shapes passed as numpy arrays", "fractions are floor/ceil-tolerant (docstring does not fix the rounding)"]
 NSHARDS = {"quick": 16, "thorough": 16}
 THRESHOLDS = {
-    "quick": {"c12:not-flagged": 500, "c12:perc-strict-subset": 200, "c12:no-forks-nontrivial": 100, "c12:random-path-ok": 1000,
+    "quick": {"repotests:ambient:gen:gen_dfs": 50, "c12:not-flagged": 500, "c12:perc-strict-subset": 200, "c12:no-forks-nontrivial": 100, "c12:random-path-ok": 1000,
               "c12:exact-count-checked": 300, "c12:gen_dfs": 500, "c12:gen_wilson": 100, "c12:gen_percolation": 300,
               "c12:gen_dfs_percolation": 300, "c12:get_connected_component": 500, "hits:gen_dfs": 1},
 }
@@ -36,6 +36,10 @@ GENS = ("gen_dfs", "gen_prim", "gen_wilson", "gen_percolation", "gen_dfs_percola
 
 
 def run(ctx):
+    if ctx.shard == ctx.nshards - 1:
+        from ..repotests import run_under_monitors
+
+        run_under_monitors(ctx)
     from maze_dataset.generation.generators import GENERATORS_MAP
 
     n_cases = 9000 if ctx.quick else 200000
